@@ -6,7 +6,7 @@ from concurrent.futures import ThreadPoolExecutor
 from harness import core, gens
 from harness.core import q, qlist, qmat, cbool, Case, guarded, ImplError, frac
 
-RULE = ('rotation: combine_at_angle on 1-16-sample integer and float component pairs; angles = multiples of 90 (incl. negative, >= 360) with the exact kernel (1,0),(0,1),(-1,0),(0,-1), '
+RULE = ('rotation: combine_at_angle on 1-16-sample integer and float component pairs (a fixed share of the integer pairs stored as int64 / int32 arrays or lists of ints: same numbers for the model); angles = multiples of 90 (incl. negative, >= 360) with the exact kernel (1,0),(0,1),(-1,0),(0,-1), '
         'and arbitrary angles whose kernel values cos/sin(radians) are proved within 1e-15 of the real kernel by the interval tactic, plus per-sample interval goals '
         '|ns_k cos(theta pi/180) + we_k sin(theta pi/180) - out_k| <= 1e-12 scale on the implementation output itself; theta+180 negation evaluated on implementation outputs; '
         'compute_rotated: points 1..37 (100 in thorough), offsets 0, +-integers, > 180, >= 360, dyadic and arbitrary floats; parameter in {pga, pgv, arias_intensity}, '
@@ -16,7 +16,7 @@ RULE = ('rotation: combine_at_angle on 1-16-sample integer and float component p
         '(random / edge padding), shifted + noise, independent, constant/plateau (ties), identical; 2-signal clusters of unequal lengths; values, ndarray tags and returned lag compared exactly; '
         'the lag-removal predicate (overlap coincides, lengths unchanged, master untouched) evaluated on implementation outputs whenever the theorem hypotheses hold. '
         'same_start: 2-4 signals of equal or unequal length, every master index, windows by time (start/end multiples and non-multiples of dt, end=-1, defaults), dyadic dt exact (tolerance 0 when the section length is a power of two, '
-        'else 1e-12), dt in {0.01, 0.005, 0.02} with 1e-10; alignment predicate (section averages equal, master unchanged, lengths unchanged) evaluated on implementation outputs. '
+        'else 1e-12), dt in {0.01, 0.005, 0.02} with 1e-10; nearly aligned clusters (common record + per-signal offset): small-unit records (amplitude ~1e-7, offsets of a few 1e-9; exact: (64k+o)2^-30) and records on a static level (~1000 with a mismatch of a few 1e-3; exact: 1024+(k+o)/256), tolerances relative to the record scale stay >= 1e4 times below the offsets; alignment predicate (section averages equal, master unchanged, lengths unchanged) evaluated on implementation outputs. '
         'non-trivial = components/signals not identically zero and, for alignment, at least one non-master signal changed or a non-zero lag planted')
 TRUSTED = [
     'Coq 8.16.1 kernel + vm_compute; Interval tactic for the trigonometric point goals',
@@ -115,6 +115,31 @@ def comp_pair(rng, n, exact):
     return a, b
 
 
+def int_pair(rng, n):
+    """integer-valued component pair (digitiser counts) for the integer-dtype storage cases"""
+    a, _ = gens.int_record(rng, n, amp=rng.choice([3, 20]))
+    b, _ = gens.int_record(rng, n, amp=rng.choice([3, 20]))
+    if not np.any(a):
+        a[0] = 1.0
+    if not np.any(b):
+        b[-1] = -2.0
+    return a, b
+
+
+STORAGE = ['float64', 'int64', 'int32', 'list of ints']
+
+
+def stored(v, kind):
+    """the same numbers in another storage type (kind > 0 requires integer values); always a fresh object"""
+    if kind == 0:
+        return np.array(v, dtype=float)
+    if kind == 1:
+        return np.array(v, dtype=np.int64)
+    if kind == 2:
+        return np.array(v, dtype=np.int32)
+    return [int(x) for x in v]
+
+
 def func_sum(s):
     return float(np.sum(s.values))
 
@@ -154,8 +179,8 @@ def rotation_cases(rep, rng, tier, cases, goals):
     import eqsig
     n_ax, n_gen, n_scan = (40, 60, 60) if tier == 'quick' else (300, 500, 600)
 
-    def combo(a, b, dt, ang, site, args):
-        r = guarded(lambda: eqsig.combine_at_angle(eqsig.AccSignal(a.copy(), dt), eqsig.AccSignal(b.copy(), dt), ang))
+    def combo(a, b, dt, ang, site, args, st=0):
+        r = guarded(lambda: eqsig.combine_at_angle(eqsig.AccSignal(stored(a, st), dt), eqsig.AccSignal(stored(b, st), dt), ang))
         if isinstance(r, ImplError):
             viol_once(rep, site, {'function': 'eqsig.combine_at_angle', 'args': args, 'impl_error': str(r)})
             return None
@@ -168,39 +193,43 @@ def rotation_cases(rep, rng, tier, cases, goals):
     for k in range(n_ax):
         n = rng.randint(1, 16)
         exact = rng.random() < 0.7
-        a, b = comp_pair(rng, n, exact)
+        st = (1 + (k // 5) % 3) if k % 5 == 4 else 0      # every 5th pair: integer counts stored as int64 / int32 / list of ints
+        a, b = int_pair(rng, n) if st else comp_pair(rng, n, exact)
         dt = gens.dyadic_dt(rng, 1, 7)
         quad = rng.randint(0, 3) if k >= 4 else k
         turns = rng.choice([0, 0, 0, 1, -1, 2])
         ang = rng.choice([float, int])(90 * quad + 360 * turns)
         site = 'combine_at_angle[angle=%d mod 360]' % (90 * quad)
-        args = {'ns': list(a), 'we': list(b), 'dt': dt, 'angle': ang}
-        out = combo(a, b, dt, ang, site, args)
+        args = {'ns': list(a), 'we': list(b), 'dt': dt, 'angle': ang, 'storage': STORAGE[st]}
+        out = combo(a, b, dt, ang, site, args, st)
         if out is None:
             continue
         c, s = EXACT_KERN[quad]
         scale = float(np.max(np.abs(a)) + np.max(np.abs(b)))
         tol = 0 if (quad == 0 and turns == 0) else 1e-12 * scale
         cases.append(Case('CComb %s %s %s %s %s %s' % (qlist(a), qlist(b), q(c), q(s), qlist(out), q(tol)),
-                          {'function': 'eqsig.combine_at_angle', 'args': args, 'impl': out}, site, klass='combine/axis'))
+                          {'function': 'eqsig.combine_at_angle', 'args': args, 'impl': out}, site, klass='combine/axis' + ('/int-dtype' if st else '')))
     # --- arbitrary angles: Q structure with kernel inputs + interval goals on kernel and on the output itself
     for k in range(n_gen):
         n = rng.randint(1, 16)
         exact = rng.random() < 0.5
-        a, b = comp_pair(rng, n, exact)
+        st = (1 + (k // 4) % 3) if k % 4 == 1 else 0      # every 4th pair: integer counts stored as int64 / int32 / list of ints
+        if st:
+            exact = True
+        a, b = int_pair(rng, n) if st else comp_pair(rng, n, exact)
         dt = gens.dyadic_dt(rng, 1, 7) if exact else rng.choice([0.01, 0.005, 0.02])
         ang = rng.choice([30.0, 45.0, 60.0, 37.5, 123.456, -15.0, 200.0, 333.25, 1.0, 89.0, 91.0, 179.5,
                           rng.uniform(-180, 540), rng.uniform(0, 360), float(rng.randint(1, 359))])
         site = 'combine_at_angle[general angle]'
-        args = {'ns': list(a), 'we': list(b), 'dt': dt, 'angle': ang}
-        out = combo(a, b, dt, ang, site, args)
+        args = {'ns': list(a), 'we': list(b), 'dt': dt, 'angle': ang, 'storage': STORAGE[st]}
+        out = combo(a, b, dt, ang, site, args, st)
         if out is None:
             continue
         c, s = kern(ang)
         scale = float(np.max(np.abs(a)) + np.max(np.abs(b)))
         tol = 1e-12 * scale
         rp = {'function': 'eqsig.combine_at_angle', 'args': args, 'impl': out}
-        cases.append(Case('CComb %s %s %s %s %s %s' % (qlist(a), qlist(b), q(c), q(s), qlist(out), q(tol)), rp, site, klass='combine/general'))
+        cases.append(Case('CComb %s %s %s %s %s %s' % (qlist(a), qlist(b), q(c), q(s), qlist(out), q(tol)), rp, site, klass='combine/general' + ('/int-dtype' if st else '')))
         goals.append(('Rabs (cos (%s * PI / 180) - %s) <= 1/1000000000000000 /\\ Rabs (sin (%s * PI / 180) - %s) <= 1/1000000000000000'
                       % (rlit(ang), rlit(c), rlit(ang), rlit(s)), 'kernel', {'angle': ang, 'cos': c, 'sin': s}))
         idx = list(range(n)) if n <= 6 else rng.sample(range(n), 4)
@@ -208,7 +237,7 @@ def rotation_cases(rep, rng, tier, cases, goals):
             goals.append(('Rabs (%s * cos (%s * PI / 180) + %s * sin (%s * PI / 180) - %s) <= %s'
                           % (rlit(a[j]), rlit(ang), rlit(b[j]), rlit(ang), rlit(out[j]), rlit(tol)), 'direct', (site, rp, j)))
         # theta + 180 negates (implementation outputs only)
-        out2 = combo(a, b, dt, ang + 180.0, site, dict(args, angle=ang + 180.0))
+        out2 = combo(a, b, dt, ang + 180.0, site, dict(args, angle=ang + 180.0), st)
         if out2 is not None:
             cases.append(Case('CNeg %s %s %s' % (qlist(out), qlist(out2), q(tol)),
                               {'function': 'eqsig.combine_at_angle', 'args': dict(args, angles=[ang, ang + 180.0]), 'impl': [out, out2]},
@@ -221,14 +250,17 @@ def rotation_cases(rep, rng, tier, cases, goals):
         kw, direct_fn, label = specs[kind]
         n = rng.randint(2, 24)
         exact = rng.random() < 0.5
-        a, b = comp_pair(rng, n, exact)
+        st = (1 + (k // 7) % 3) if k % 7 == 3 else 0      # every 7th scan (all six measures in turn): integer-dtype components
+        if st:
+            exact = True
+        a, b = int_pair(rng, n) if st else comp_pair(rng, n, exact)
         dt = gens.dyadic_dt(rng, 1, 7) if exact else rng.choice([0.01, 0.005, 0.02])
         points = rng.choice(pts_choices)
         if k == 0 and tier != 'quick':
             points = 100
         off = rng.choice([0.0, 0.0, 30.0, -20.0, 200.0, 360.0, 400.5, 90.0, 180.0, -180.0, 12.25, 33.3, -0.1, rng.uniform(-400, 400), rng.uniform(-400, 400), float(rng.randint(-360, 720))])
         site = 'compute_rotated[%s]' % label
-        args = {'ns': list(a), 'we': list(b), 'dt': dt, 'angle_off_ns': off, 'points': points, 'measure': label}
+        args = {'ns': list(a), 'we': list(b), 'dt': dt, 'angle_off_ns': off, 'points': points, 'measure': label, 'storage': STORAGE[st]}
         use_default_pts = (points == 100 and rng.random() < 0.5)
         use_default_off = (off == 0.0 and rng.random() < 0.5)
         kws = dict(kw)
@@ -236,7 +268,7 @@ def rotation_cases(rep, rng, tier, cases, goals):
             kws['points'] = points
         if not use_default_off:
             kws['angle_off_ns'] = off
-        r = guarded(lambda: eqsig.compute_rotated(eqsig.AccSignal(a.copy(), dt), eqsig.AccSignal(b.copy(), dt), **kws))
+        r = guarded(lambda: eqsig.compute_rotated(eqsig.AccSignal(stored(a, st), dt), eqsig.AccSignal(stored(b, st), dt), **kws))
         if isinstance(r, ImplError):
             viol_once(rep, site, {'function': 'eqsig.compute_rotated', 'args': args, 'impl_error': str(r)})
             continue
@@ -244,7 +276,7 @@ def rotation_cases(rep, rng, tier, cases, goals):
         if len(degs) != len(pv):
             viol_once(rep, site, {'function': 'eqsig.compute_rotated', 'args': args, 'impl': 'degrees and values differ in length', 'lens': [len(degs), len(pv)]})
             continue
-        ns_sig, we_sig = eqsig.AccSignal(a.copy(), dt), eqsig.AccSignal(b.copy(), dt)
+        ns_sig, we_sig = eqsig.AccSignal(stored(a, st), dt), eqsig.AccSignal(stored(b, st), dt)
         direct = guarded(lambda: [float(direct_fn(eqsig.combine_at_angle(ns_sig, we_sig, d))) for d in degs])
         if isinstance(direct, ImplError):
             viol_once(rep, site, {'function': 'eqsig.compute_rotated', 'args': args, 'impl_error': str(direct)})
@@ -259,7 +291,7 @@ def rotation_cases(rep, rng, tier, cases, goals):
                % (q(off), points, qlist(degs), q(angtol), '; '.join('(%s, %s)' % (q(c), q(s)) for c, s in ks), kind, q(ARIAS_C), q(dt),
                   qlist(a), qlist(b), qlist(pv), qlist(direct), q(tol)))
         cases.append(Case(coq, {'function': 'eqsig.compute_rotated', 'args': args, 'impl': {'degrees': degs, 'values': pv}}, site,
-                          klass='scan/%s/%s' % (label, 'exact-angles' if ang_exact else 'tol-angles')))
+                          klass='scan/%s/%s%s' % (label, 'exact-angles' if ang_exact else 'tol-angles', '/int-dtype' if st else '')))
         for j in rng.sample(range(len(degs)), min(3, len(degs))):
             c, s = ks[j]
             goals.append(('Rabs (cos (%s * PI / 180) - %s) <= 1/1000000000000000 /\\ Rabs (sin (%s * PI / 180) - %s) <= 1/1000000000000000'
@@ -379,11 +411,16 @@ def pow2(n):
 
 def ss_cases(rep, rng, tier, cases):
     N = 150 if tier == 'quick' else 1500
+    NX = 24 if tier == 'quick' else 200      # nearly aligned clusters: small-unit records / records on a large static level
     fragile = 0
-    for k in range(N):
+    for k in range(N + NX):
         nsig = rng.choice([2, 2, 3, 3, 4])
         master = rng.randrange(nsig)
         exact = rng.random() < 0.75
+        special = None
+        if k >= N:
+            special = ('small-unit', 'static-level')[(k - N) % 2]
+            exact = ((k - N) // 2) % 2 == 0
         dt = gens.dyadic_dt(rng, 1, 6) if exact else rng.choice([0.01, 0.005, 0.02])
         n0 = rng.randint(4, 40)
         lens = [n0] * nsig if rng.random() < 0.7 else [n0 + rng.randint(0, 6) for _ in range(nsig)]
@@ -396,6 +433,34 @@ def ss_cases(rep, rng, tier, cases):
             else:
                 v, _ = gens.float_record(rng, lens[s])
             vals.append(v)
+        if special:
+            # every signal = one common record + its own small offset (+ its own tail beyond the shortest length): the section
+            # averages differ by exactly the offset differences, which are far below the amplitude (small-unit: amplitude ~1e-7,
+            # offsets of a few 1e-9) or far below the static level (level ~1000, mismatch of a few 1e-3), and far above the tolerance
+            nmax = max(lens)
+            if exact:
+                base, _ = gens.int_record(rng, nmax, amp=3 if special == 'small-unit' else 20, style=rng.choice(['uniform', 'walk', 'startnz']))
+                offs = [0] * nsig
+                for s in range(nsig):
+                    if s != master:
+                        offs[s] = rng.choice([-1, 1]) * (rng.randint(1, 5) if special == 'small-unit' else rng.randint(1, 2))
+                if special == 'small-unit':     # (64 k + o) 2^-30: amplitude 2e-7, offsets 1e-9 .. 5e-9
+                    vals = [(base[:lens[s]] * 64.0 + offs[s]) * 2.0 ** -30 for s in range(nsig)]
+                else:                           # 1024 + (k + o)/256: mismatch 3.9e-3 or 7.8e-3
+                    vals = [1024.0 + (base[:lens[s]] + offs[s]) / 256.0 for s in range(nsig)]
+            else:
+                base, _ = gens.float_record(rng, nmax, style=rng.choice(['gauss', 'sine']))
+                offs = [0.0] * nsig
+                for s in range(nsig):
+                    if s != master:
+                        offs[s] = rng.choice([-1, 1]) * (rng.uniform(1e-9, 7e-9) if special == 'small-unit' else rng.uniform(1e-3, 7e-3))
+                if special == 'small-unit':
+                    vals = [base[:lens[s]] * 1.0e-7 + offs[s] for s in range(nsig)]
+                else:
+                    vals = [base[:lens[s]] + 1000.0 + offs[s] for s in range(nsig)]
+            for s in range(nsig):             # samples beyond the shortest record are the signal's own
+                for i in range(nmin, lens[s]):
+                    vals[s][i] = vals[s][i] * rng.choice([1.0, 0.5, 2.0])
         mode = rng.choice(['default', 'grid', 'grid', 'offgrid', 'end-1', 'pow2', 'pow2'])
         kw = {}
         if mode == 'default':
@@ -444,7 +509,7 @@ def ss_cases(rep, rng, tier, cases):
         if min(seclens) == 0:
             continue
         stypes = rng.choice(['custom', 'acc'])
-        site = 'Cluster.same_start[%d signals]' % nsig
+        site = 'Cluster.same_start[%d signals]' % nsig + ('[nearly aligned, %s]' % special if special else '')
         args = {'values': [list(v) for v in vals], 'dt': dt, 'master_index': master, 'kwargs': kw, 'stypes': stypes}
 
         def call():
@@ -470,7 +535,7 @@ def ss_cases(rep, rng, tier, cases):
         moved = any(np.any(o != v) for o, v in zip(outs, vals) if len(o) == len(v))
         cases.append(Case('CSs %d %s %s %s %s %s %s' % (master, q(dt), q(start), q(end), qmat(vals), qmat(outs), q(tol)),
                           {'function': 'eqsig.Cluster.same_start', 'args': args, 'impl': outs}, site, nontrivial=moved,
-                          klass='same_start/%d/%s/%s' % (nsig, mode, 'exact' if tol == 0 else 'tol')))
+                          klass='same_start/%d/%s/%s%s' % (nsig, mode, 'exact' if tol == 0 else 'tol', '/' + special if special else '')))
     return fragile
 
 
@@ -517,11 +582,13 @@ def replay_call(rp):
     f = rp['function']
     if f == 'eqsig.combine_at_angle':
         angs = a.get('angles', [a.get('angle')])
-        return [eqsig.combine_at_angle(eqsig.AccSignal(np.array(a['ns']), a['dt']), eqsig.AccSignal(np.array(a['we']), a['dt']), x).values for x in angs]
+        st = STORAGE.index(a.get('storage', 'float64'))
+        return [eqsig.combine_at_angle(eqsig.AccSignal(stored(a['ns'], st), a['dt']), eqsig.AccSignal(stored(a['we'], st), a['dt']), x).values for x in angs]
     if f == 'eqsig.compute_rotated':
         kind = [k for k, v in measure_specs().items() if v[2] == a['measure']][0]
         kw = dict(measure_specs()[kind][0], points=a['points'], angle_off_ns=a['angle_off_ns'])
-        return eqsig.compute_rotated(eqsig.AccSignal(np.array(a['ns']), a['dt']), eqsig.AccSignal(np.array(a['we']), a['dt']), **kw)
+        st = STORAGE.index(a.get('storage', 'float64'))
+        return eqsig.compute_rotated(eqsig.AccSignal(stored(a['ns'], st), a['dt']), eqsig.AccSignal(stored(a['we'], st), a['dt']), **kw)
     c = eqsig.Cluster([np.array(v, dtype=float) for v in a['values']], a['dt'], master_index=a['master_index'], stypes=a['stypes'])
     if f == 'eqsig.Cluster.time_match':
         r = c.time_match(steps=a['steps'])
